@@ -69,8 +69,11 @@ Dr(i, p, nm) == [id |-> i, parent |-> p, kind |-> "dir", name |-> nm, content |-
 W == [gitinit |-> (tool = "git"), rootname |-> (IF spell \in {"meta", "metaabs"} THEN "c++ (1).[x]" ELSE "r"),
       nodes |-> << Fl(1, 0, "a.txt"), Fl(2, 0, "b.log"), Fl(3, 0, "keep.log"), Dr(4, 0, "src"), Fl(5, 4, "y.rs"), Fl(6, 4, "z.log"), Dr(7, 4, "gen"),
                    Fl(8, 7, "o.log"), Dr(9, 0, "build"), Fl(10, 9, "out.bin"), Fl(11, 0, "ab.logx"), Fl(12, 0, "o.log"), Fl(13, 4, "b.log"),
-                   [Fl(14, 0, FileName) EXCEPT !.content = Content], Fl(15, 0, "k!p.log") >>
-                \o (IF tool \in {"hgglob", "hgrx"} THEN << Dr(16, 0, ".hg") >> ELSE <<>>)]
+                   [Fl(14, 0, FileName) EXCEPT !.content = Content], Fl(15, 0, "k!p.log"),
+                   \* a second `src` deeper in the tree (patterns with an inner slash: rooted for git and docker, not for hg);
+                   \* a name in which a pattern's dot would have to stand for another character
+                   Dr(16, 0, "pkg"), Dr(17, 16, "src"), Fl(18, 17, "q.log"), Fl(19, 0, "catalog"), Fl(20, 4, "yxrs") >>
+                \o (IF tool \in {"hgglob", "hgrx"} THEN << Dr(21, 0, ".hg") >> ELSE <<>>)]
 
 OptWord == CASE tool = "git" -> "gitignore" [] tool = "docker" -> "dockerignore" [] OTHER -> "hgignore"
 RootText == CASE spell = "dot" -> "'.'" [] spell = "meta" -> "'.'" [] spell = "metaabs" -> "'@ROOT@'" [] spell = "rel" -> "'r'" [] spell = "abs" -> "'@ROOT@'" [] spell = "sub" -> "'src'" [] spell = "subdot" -> "'.'"
